@@ -55,12 +55,14 @@ def check_C11(ctx):
 
 
 
-def omni(ctx, quick_n=1500, thorough_n=20000, offset=0):
+def omni(ctx, quick_n=1500, thorough_n=20000, offset=0, altreprs=0):
     """Seeded programs from the whole grammar over rich environments in random representations and spellings,
     each parsed once and rendered several times; decided by the render reference (TraceRender)."""
     cases = ctx.gen("omni", quick_n if ctx.quick else thorough_n, seed_offset=1000 * offset)
     for c in cases:
         c["id"] = "omni%d-%s" % (offset, c["id"])
+        if altreprs:
+            c["altreprs"] = altreprs      # C18: the same bindings in other Go representations must render the same
     ctx.validate(ctx.run_cases(cases))
     ctx.exhaustive = False
     ctx.notes.append("plus %d seeded `omni` programs (whole grammar, rich bindings, random representations/spellings, "
@@ -97,7 +99,7 @@ def check_C09(ctx):
 # --------------------------------------------------------------------------- C16
 
 C16_LAWS = ["Utf8Preserved", "NeverLengthens", "FitsUnchanged", "FitsUnchangedWords", "EscapeLeavesNoSpecials", "EscapeOnceIdempotent",
-            "EscapedIsFixedPoint", "UrlRoundTrip", "StripIsBoth", "CaseLaws", "SizeCountsChars", "SplitJoinInverse", "AppendPrepend",
+            "EscapedIsFixedPoint", "StripHtmlLaw", "UrlRoundTrip", "StripIsBoth", "CaseLaws", "SizeCountsChars", "SplitJoinInverse", "AppendPrepend",
             "RemoveIsReplaceEmpty"]
 
 
@@ -419,8 +421,10 @@ def check_C14(ctx):
 
 def check_C18(ctx):
     cases, _ = ctx.tlc_mc("MC_C18", mc_cfg({"Full": "FALSE" if ctx.quick else "TRUE"}, ["ReferenceDecides", "EmitCase"]))
+    for c in cases:
+        c["altreprs"] = 1
     ctx.validate(ctx.run_cases(cases))
-    omni(ctx, offset=18)
+    omni(ctx, offset=18, altreprs=3)
     return finish(ctx, rule="MC_C18: nine families of probe templates (numbers of every width printed/compared/in arithmetic, typed "
                             "slices and fixed arrays, typed and ordered maps, []byte, pointers, Drops at every subset of the nodes of "
                             "a nested environment) x the representation assignments the statement allows; each realisation is "
